@@ -135,6 +135,13 @@ PLANS = {
         rule='MC: every history of <= MaxOps API calls (one-shot string/lines[/coloured], parse_html, dom_to_render_tree, clone, render_to_string/lines[/coloured] consuming the tree) over 2 documents and widths {0, 3, 9}; each emitted history is replayed call by call on the real API and compared with the specification after every call; random: histories of 4..14 calls over 1-2 grammar documents, 2-4 widths (repeated, out of order, failing ones in between), all decorators and option mixes; non-trivial = at least three distinct (call kind, route) pairs produce a rendering; distinct by sha256(history)',
         assumptions=['the colour map of the coloured routes is the identity', 'lines routes are compared after joining the tagged strings of each line'],
     ),
+    'C16': dict(
+        fams=[('c16', dict(quick=3000, thorough=60000), {})],
+        mc=[],
+        nontrivial=lambda rec: bool(rec.get('runs')) and rec['runs'][0]['cfg']['deco'] == 'custom' and rec['runs'][0]['res']['k'] == 'ok' and any(c[0] > 127 and c[0] not in (19968, 20108, 35486, 127881, 769, 822) for ln in rec['runs'][0]['res']['lines'] for c in ln),
+        rule='decorators from a family parameterised by prefix/affix strings over {ASCII, 2-byte width-1, 3-byte width-2, empty} (affix and prefix characters from disjoint pools); three shapes: a C07-style block with stand-alone renderings of its items at width - display_width(prefix); a block-grammar document whose letters+affix-characters stream must equal the one derived from the DOM; a TrivialDecorator run whose non-space, non-border output must equal V(d); widths 4..80; non-trivial = Ok with a non-ASCII decorator character in the output; distinct by sha256(runs)',
+        assumptions=['decorator strings are observed through the trait methods, never assumed', 'the affix stream is compared on table-free documents'],
+    ),
     'C03': dict(
         fams=[('c03', dict(quick=3000, thorough=60000), {})],
         mc=[MC_WRAP_MARKS, MC_BLOCK, MC_TABLE],
